@@ -100,6 +100,18 @@ def run_case(ck, desc):
         ck.violation("bo-falls-above-pb", {"max_step": float(np.max(np.diff(bo_hi)))}, desc)
     if not (bo_lo[-1] <= bo_hi[0] * (1 + 1e-6)):
         ck.violation("bo-max-at-pb", {"below": bo_lo[-1], "at": bo_hi[0]}, desc)
+    # 4b. the same ordering on ONE array call in which every pressure occurs twice and the order is
+    #     mixed (a drawdown profile with flat ends, two stacked tables): equal pressures, equal values
+    grid = np.concatenate([lo[::8], hi[::8]])
+    arr = np.concatenate([grid, grid[::-1]])
+    for name in ("Bo", "Rs", "rho_o"):
+        va = np.asarray(fns[name](arr), dtype=float)
+        vs = np.array([float(fns[name](float(x))) for x in grid])
+        ref = np.concatenate([vs, vs[::-1]])
+        if va.shape != arr.shape or not ck.margin(f"array with repeated pressures = scalar calls ({name})", float(np.max(np.abs(va - ref) / np.abs(ref))), 1e-12):
+            k = int(np.argmax(np.abs(va - ref) / np.abs(ref))) if va.shape == arr.shape else -1
+            ck.violation(f"ordering-holds-on-arrays-with-repeated-pressures.{name}", {"p": float(arr[k]), "array": float(va[k]) if k >= 0 else None, "scalar": float(ref[k]) if k >= 0 else None, "above_pb": bool(arr[k] > pb)}, desc)
+    ck.count("arrays_with_repeated_pressures", 3)
     # 5. viscosity falls with pressure below p_b; positive everywhere
     mu_lo = np.array([float(fns["mu_o"](p)) for p in lo])
     mu_hi = np.array([float(fns["mu_o"](p)) for p in hi])
